@@ -258,7 +258,7 @@ func cmdCheck(args []string) {
 	timeout := 10000
 	coverReturns = *tier == "thorough"
 	if *tier == "thorough" {
-		timeout = 30000
+		timeout = 20000
 	}
 	if *tmo > 0 {
 		timeout = *tmo
